@@ -24,13 +24,13 @@ def bounds(tier, seed):
     return dict(shapes="{1..3}x{1..4}", n_data=[0, 4], n_extra=[0, 3], dims=["default", "custom"])
 
 
-EAST = [-10.0, -7.5, -6.0, 1.25]
-NORTH = [8.0, 9.0, 20.5]
+EAST = [-10.0, -7.5, -6.0, 1.25, 2.0, 64.5]
+NORTH = [8.0, 9.0, 20.5, 21.0, 40.25]
 
 
 def cases(tier, seed):
-    for nn in (1, 2, 3):
-        for ne in (1, 2, 3, 4):
+    for nn in ((1, 2, 3) if tier == "quick" else (1, 2, 3, 4, 5)):
+        for ne in ((1, 2, 3, 4) if tier == "quick" else (1, 2, 3, 4, 5, 6)):
             for form in ("1d", "2d"):
                 for nd in (0, 1, 2, 3, 4):
                     for nx in (0, 1, 2, 3):
